@@ -274,6 +274,12 @@ func newRunEnv() *runEnv {
 			return "", errSentinel
 		},
 		"id": func(v interface{}) interface{} { return v },
+		// a helper that fills defaults into its options (as tag / form helpers do): the map it receives
+		// when called without options must be its own
+		"opt": func(opts map[string]interface{}) int {
+			opts[fmt.Sprintf("k%d", len(opts))] = true
+			return len(opts)
+		},
 		"blk": func(help plush.HelperContext) (template.HTML, error) {
 			s, err := help.Block()
 			return template.HTML(s), err
